@@ -346,7 +346,10 @@ impl<'a, 'tcx> BodyCx<'a, 'tcx> {
                 self.operand(&ab.1),
             ]),
             Rvalue::UnaryOp(op, a) => J::Arr(vec![s("un"), s(format!("{:?}", op)), self.operand(a)]),
-            Rvalue::Discriminant(p) => J::Arr(vec![s("discr"), self.place(p)]),
+            Rvalue::Discriminant(p) => {
+                let pty = p.ty(&self.body.local_decls, self.cx.tcx).ty;
+                J::Arr(vec![s("discr"), self.place(p), s(self.cx.ty_s(pty))])
+            }
             Rvalue::Aggregate(kind, ops) => {
                 let k = match &**kind {
                     AggregateKind::Array(_) => J::Arr(vec![s("array")]),
